@@ -84,6 +84,8 @@ var controls = []control{
 	{"C09", "benign: rename the change counter", "Grammar/grammar.go", "change", "changed", ""},
 
 	// ---- C10
+	{"C10", "rootState no longer emits the EOF token at the end of the input", "Parser/Lex.go", "\tcase r == eof:\n\t\tl.emitEOF()\n\t\treturn nil", "\tcase r == eof:\n\t\treturn nil", "rootState/character-class-to-token-class"},
+	{"C10", "a minus sign no longer takes the digits that follow it", "Parser/Lex.go", "\tcase r == '-':\n\t\tl.acceptRun(\"0123456789\")\n\t\tl.emit(Number)", "\tcase r == '-':\n\t\tl.emit(Number)", "rootState/character-class-to-token-class"},
 	{"C10", "EOF token without offset", "Parser/Lex.go", "\t\tKind:     EOF,\n\t\tEndAt:    l.end,\n", "\t\tKind:     EOF,\n", "emitEOF"},
 	{"C10", "rules sorted by line", "Parser/Vistor.go", "\t\t\tv.rules = append(v.rules, r)\n", "\t\t\tv.rules = append(v.rules, r)\n\t\t\tsort.SliceStable(v.rules, func(i, j int) bool { return v.rules[i].LineNo < v.rules[j].LineNo })\n", "sort"},
 	{"C10", "prologue gets a newline appended", "Parser/Vistor.go", "v.code = n.CodeList", "v.code = n.CodeList + \"\\n\"", "astDeclareVistor.code"},
